@@ -11,7 +11,7 @@ import pyside
 import values
 
 LEAN_MODULE = "Kio.Props.C03"
-THEOREMS = ["Kio.C03.accepts_conforming", "Kio.C03.foreign_is_conforming", "Kio.C03.conforms_examples",
+THEOREMS = ["Kio.C03.accepts_conforming", "Kio.C03.foreign_is_conforming", "Kio.C03.mixed_is_conforming", "Kio.C03.conforms_examples",
             "Kio.C03.accepts_foreign", "Kio.C03.shipped_unknown_tag_witness"]
 
 UNKNOWN_TAGS = [5, 17, 99, 127, 128, 300, 16383, 16384, 2**21, 2**35 - 1]
@@ -82,6 +82,15 @@ def run(ctx):
         lines.append(f"foreign {i} 0 0 {values.render(a)}")
         meta.append((i, a, False, []))
         absent += 1
+    # per-occurrence choices (`Spec.encMixed`): every structure occurrence decides for itself which
+    # defaults to send and which unknown entries to add
+    nmixed = 0
+    for i, a, _obj in insts:
+        if cl.cls(i).__flexible__ and (thorough or rng.random() < 0.5):
+            sd = rng.getrandbits(48)
+            lines.append(f"foreignmix {i} {sd} {values.render(a)}")
+            meta.append((i, a, True, [(-1, b"")]))
+            nmixed += 1
     replies = driver.run_parallel(lines, jobs=14)
     fails, disagreements = [], []
     dec_lines, dec_meta = [], []
